@@ -260,7 +260,28 @@ class ReplayFR(object):
             yield r
 
 
-MUTATORS = ["uctx", "udata", "var", "upd", "mkf", "count"]
+class UVarRange(object):
+    """user mutator: appends to the list the shared Variable put into context.variable.range"""
+
+    def __init__(self, code):
+        self.code = code
+
+    def __call__(self, value):
+        rng = value[1].get("variable", {}).get("range")
+        if isinstance(rng, list):
+            rng.append(self.code)
+        return value
+
+
+def make_shared_variable():
+    """one Variable instance used by several branches; it got a mutable attribute after its
+    construction (every value must still get its own copy of it)"""
+    v = lena.variables.Variable("shared", lambda d: d + [7])
+    v.range = [0, 1]
+    return v
+
+
+MUTATORS = ["uctx", "udata", "var", "upd", "mkf", "count", "sharedvar"]
 
 
 def gen_split(tape, sc):
@@ -297,6 +318,8 @@ def gen_split(tape, sc):
         if br.kind in ("fc", "fr") and br.slice is None and tape.chance(1, 5, "nested-branch"):
             br.nested = tape.choice(["Split", "Zip"], "nested-kind")
         sc.branches.append(br)
+    # the contexts are plain dictionaries or lena.context.Context objects (a dict subclass)
+    sc.ctx_class = lena.context.Context if tape.chance(1, 4, "context-class") else dict
     sc.reqs = []
     if sc.driver in ("fill-request", "zip-request"):
         for p in range(sc.n + 1):
@@ -305,8 +328,8 @@ def gen_split(tape, sc):
     return sc
 
 
-def make_flow(n):
-    return [([i], {"src": {"i": i}, "tags": []}) for i in range(n)]
+def make_flow(n, ctx_class=dict):
+    return [([i], ctx_class({"src": {"i": i}, "tags": []})) for i in range(n)]
 
 
 def build_branch(sc, b, store, sub=0):
@@ -326,6 +349,9 @@ def build_branch(sc, b, store, sub=0):
             muts.append(lena.context.UpdateContext("br.b%d_%d" % (b, sub), code))
         elif m == "mkf":
             muts.append(lena.output.MakeFilename("f{{src.i}}_b%d_%d_%d" % (b, j, sub)))
+        elif m == "sharedvar":
+            muts.append(sc.shared_var)
+            muts.append(UVarRange(code))
         else:
             muts.append(lena.core.FillInto(lena.flow.Count("c%d" % b)))
     if br.slice is not None:
@@ -370,6 +396,7 @@ def as_seq(sc, b, els, store=None):
 def drive(sc, which, flow, stores, res=None):
     """Run the branches *which* (indices) under the scenario's driver.
     Returns the list of results, or for request drivers the list of chunks."""
+    sc.shared_var = make_shared_variable()      # the same object in every branch of this run
     seqs = [as_seq(sc, b, build_branch(sc, b, stores[b]), stores[b]) for b in which]
     d = sc.driver
     if d == "run":
@@ -444,14 +471,14 @@ def run_split(tape, res, sc):
 
     # together
     stores = [[] for _ in range(sc.nb)]
-    flow = make_flow(sc.n)
+    flow = make_flow(sc.n, sc.ctx_class)
     together, err = guarded(lambda: drive(sc, list(range(sc.nb)), flow, stores, res), "together")
     log.ev("op", "together", d)
     # alone
     alone = []
     for b in range(sc.nb):
         st = [[] for _ in range(sc.nb)]
-        out, e2 = guarded(lambda b=b, st=st: drive(sc, [b], make_flow(sc.n), st), "alone")
+        out, e2 = guarded(lambda b=b, st=st: drive(sc, [b], make_flow(sc.n, sc.ctx_class), st), "alone")
         log.ev("op", "alone", b)
         alone.append((out, e2))
     if err is not None:
@@ -585,6 +612,7 @@ def gen_acc(tape, sc):
     if sc.acc in ("Vectorize", "VectorizeStore", "Graph"):
         sc.acc2 = sc.acc
     sc.bufsize = tape.choice([1000, 1, None], "bufsize")
+    sc.ctx_context_class = tape.chance(1, 4, "context-class")
     sc.ops = []
     nfill = 0
     ncomp = 0
@@ -616,11 +644,12 @@ def make_value(sc, x, ck, serial):
     data = (x, x + 1) if sc.acc in ("Vectorize", "VectorizeStore") else x
     if sc.acc == "Graph":
         data = ((x,), (serial,))
+    cls = lena.context.Context if getattr(sc, "ctx_context_class", False) else dict
     if ck == "bare":
         return data
     if ck == "empty":
-        return (data, {})
-    return (data, {"a": {"n": serial}, "l": [serial], "k": "v%d" % serial})
+        return (data, cls({}))
+    return (data, cls({"a": {"n": serial}, "l": [serial], "k": "v%d" % serial}))
 
 
 def run_acc(tape, res, sc):
